@@ -203,3 +203,55 @@ Proof.
   split; [eexists; vm_compute; reflexivity|]. split; [vm_compute; reflexivity|].
   split; [vm_compute; reflexivity|]. split; [vm_compute; reflexivity|]. vm_compute. reflexivity.
 Qed.
+
+(* the walk hypothesis of c06_cpc_union_refines (usteps_fit, made of fits_any) is dischargeable beyond the empty source:
+   if the union of the accumulator's and the source's matrices is still in the sparse range (C < 3K/32), no visiting order
+   of the source's pairs can outgrow the accumulator's table (in sparse mode the table holds exactly the coupons, and
+   3K/32 is below every table's capacity).  [load lg A false 0] is the number of set positions of A: the hypothesis on A
+   holds for every concrete matrix by computation, and for the all-zero matrix by c06_load_zero. *)
+Theorem c06_fits_any_sparse : forall lg A B, lg <= 26 ->
+  load lg A false 0 <= pop_rows A (Knat lg) ->
+  32 * pop_rows (mor A B) (Knat lg) < 3 * 2 ^ lg ->
+  fits_any lg A B.
+Proof. exact fits_any_sparse. Qed.
+
+Theorem c06_load_zero : forall lg M wd, (forall r c, N.testbit (M r) c = false) -> wd = false -> load lg M wd 0 = 0.
+Proof. exact load_zero. Qed.
+
+(* non-vacuity through merge case A (a sparse source walked into the sparse accumulator): two overlapping sparse
+   lg_k-6 sketches into a lg_k-6 union; the union stays an accumulator with the 5 distinct coupons *)
+Definition c06_ex_a1 : list N := [3 * 64 + 1; 7 * 64; 50 * 64 + 5].
+Definition c06_ex_a2 : list N := [3 * 64 + 1; 9 * 64 + 2; 63 * 64 + 40].
+
+Example c06_example_case_a :
+  exists s1 s2,
+    cpc_run 6 c06_ex_a1 = Ok s1 /\ cpc_run 6 c06_ex_a2 = Ok s2 /\
+    let l := [(s1, 6, spec c06_ex_a1); (s2, 6, spec c06_ex_a2)] in
+    Forall (fun x => Vin (fst (fst x)) (snd (fst x)) (snd x)) l /\
+    dom (uspec 6 (ins_of l)) /\
+    usteps_fit (6, mzero) (ins_of l) /\ result_fits (fst (uspec 6 (ins_of l))) (snd (uspec 6 (ins_of l))) /\
+    exists u s, union_of 6 [s1; s2] = Ok u /\ union_num_coupons u = 5 /\
+                (exists a, u_st u = UAcc a) /\
+                union_to_sketch u = Ok s /\ c_num s = 5 /\ c_merge s = true.
+Proof.
+  eexists. eexists. split; [vm_compute; reflexivity|]. split; [vm_compute; reflexivity|].
+  split.
+  { constructor; [|constructor; [|constructor]]; cbn [fst snd].
+    - apply cpc_run_vin; [lia| |vm_compute; reflexivity|apply fits_streamb_sound; vm_compute; reflexivity|vm_compute; reflexivity].
+      unfold valid. repeat constructor; vm_compute; congruence.
+    - apply cpc_run_vin; [lia| |vm_compute; reflexivity|apply fits_streamb_sound; vm_compute; reflexivity|vm_compute; reflexivity].
+      unfold valid. repeat constructor; vm_compute; congruence. }
+  split; [vm_compute; reflexivity|].
+  split.
+  { cbn [usteps_fit ins_of map fst snd]. split; [|split; [|exact I]].
+    - split; [intros H; exfalso; vm_compute in H; discriminate|].
+      intros _ _. apply fits_any_sparse; [vm_compute; congruence| |vm_compute; reflexivity].
+      rewrite load_zero; [apply N.le_0_l| |reflexivity]. intros r c. rewrite mfold_zero. apply N.bits_0.
+    - split; [intros H; exfalso; vm_compute in H; discriminate|].
+      intros _ _. apply fits_any_sparse; [vm_compute; congruence| |vm_compute; reflexivity].
+      apply N.leb_le. vm_compute. reflexivity. }
+  split; [intros H; exfalso; vm_compute in H; apply H; reflexivity|].
+  eexists. eexists. split; [vm_compute; reflexivity|]. split; [vm_compute; reflexivity|].
+  split; [eexists; vm_compute; reflexivity|]. split; [vm_compute; reflexivity|].
+  split; vm_compute; reflexivity.
+Qed.
